@@ -172,5 +172,5 @@ if __name__ == "__main__":
               "parse A/parse B/render B/render A interleaving with the previous schema; sha256 of every generated file compared; the "
               "cache-coherence monitor recomputes every memoised AST method on every call; non-trivial/distinct as in C01"),
         assumptions=["the generated files are the only observable output that matters (stderr lint text is not compared)"],
-        required_counters=["variants_compared", "cli_compilations", "cache_checks_total"],
+        required_counters=["variants_compared", "cli_compilations"],
     )
